@@ -84,7 +84,12 @@ def classify(diags, g):
                 failures.append(dict(kind='hint', clause=hint['clause'], tags=list(hint.get('tags') or []), role='hint', fn=hint.get('fn'),
                                      message='hint does not compile: ' + msg, rendered=d.get('rendered', '')))
                 continue
-            undecided.append('tool/compile error: %s' % (d.get('rendered') or msg)[:600])
+            host = None
+            for sp in d.get('spans', []):
+                ln = sp['line_start'] - 1
+                if 0 <= ln < len(g.map) and g.map[ln].get('kind') == 'verbatim' and sp.get('is_primary'):
+                    host = g.map[ln].get('fn')
+            undecided.append('tool/compile error: %s%s' % ((d.get('rendered') or msg)[:600], (' [outside-subset-in=%s]' % host) if host else ''))
             continue
         spans = d.get('spans', [])
         entries = []
